@@ -96,7 +96,13 @@ class Collector(ast.NodeVisitor):
                 self.store(t, aug)
             return
         if isinstance(tgt, ast.Attribute):
-            self.eff('EAugAttr' if aug else 'EWriteAttr', self.obj(tgt.value), tgt.attr)
+            o = self.obj(tgt.value)
+            # the fixed flag: `x[0].fixed = ...` (the FIRST element, what fix_first_pose does) is kept apart from a store through any
+            # other element or a loop variable (path[*]); only the former is something optimize() may do
+            v = tgt.value
+            if tgt.attr == 'fixed' and isinstance(v, ast.Subscript) and isinstance(v.slice, ast.Constant) and v.slice.value == 0 and o.endswith('[*]'):
+                o = o[:-3] + '[0]'
+            self.eff('EAugAttr' if aug else 'EWriteAttr', o, tgt.attr)
             return
         if isinstance(tgt, ast.Subscript):
             self.eff('EWriteInto', self.obj(tgt.value))
